@@ -389,9 +389,15 @@ func (tx *vfC14Tx) write(tag int, payload []byte, caseID string) *vfC14Msg {
 	return m
 }
 
-// writeWithChunks repeats the write until the sender drew the wanted chunk count.
+// writeWithChunks repeats the write until the sender drew the wanted chunk count. The sender draws its
+// chunk count from crypto/rand; the harness draws the count it wants from its own seeded PRNG (same
+// range, uniform like the sender) and every retry starts from the same message-ID counter value, so the
+// message that is used has a chunk count and an ID that are functions of the seed only (the sender's own
+// increment still produces the ID). Everything scripted from these messages is then reproducible.
 func (tx *vfC14Tx) writeWithChunks(tag int, payload []byte, want int, caseID string) *vfC14Msg {
+	id0 := tx.g.msgID.Load()
 	for try := 0; try < 600; try++ {
+		tx.g.msgID.Store(id0)
 		m := tx.write(tag, payload, caseID)
 		if m == nil {
 			return nil
@@ -399,9 +405,19 @@ func (tx *vfC14Tx) writeWithChunks(tag int, payload []byte, want int, caseID str
 		if m.Total == want {
 			return m
 		}
+		tx.k.Count("sender_redraws", 1)
 	}
 	tx.k.Inconclusive(fmt.Sprintf("%s: sender never drew %d chunks in 600 writes", caseID, want))
 	return nil
+}
+
+// writeSeeded writes a packet for a scripted scenario: short-header packets directly, long-header ones
+// with a chunk count chosen by the scenario's PRNG.
+func (tx *vfC14Tx) writeSeeded(r *rand.Rand, tag int, payload []byte, caseID string) *vfC14Msg {
+	if payload[0]&0x80 == 0 {
+		return tx.write(tag, payload, caseID)
+	}
+	return tx.writeWithChunks(tag, payload, vfC14MinChunks+r.Intn(vfC14MaxChunks-vfC14MinChunks+1), caseID)
 }
 
 // ---------------------------------------------------------------------------- receiver world
